@@ -47,8 +47,11 @@ class Decoder:
     self.pen = DEFAULT_PEN
     self.sure = True
     self.touched = False
+    self.cell_tag = None
+    self.run_open = True
     self.prev_mid = self.mid_now = None   # bookkeeping for back-to-back mid-row codes
-    self.tags = set()       # input features seen so far that discriminate known reader defects
+    self.pen_tag = None
+    self.pac_unsure = False
     self.last = None        # last word if it was a control code that may be followed by its redundant copy
     self.cur_chan = None    # data channel of the last control code
 
@@ -57,7 +60,7 @@ class Decoder:
     return self.nond if self.mode == "pop" else self.disp
 
   def _put(self, ch):
-    self._mem()[self.row][self.col] = (ch, self.pen[0], self.pen[1], self.pen[2], self.sure)
+    self._mem()[self.row][self.col] = (ch, self.pen[0], self.pen[1], self.pen[2], self.sure, self.cell_tag or self.pen_tag)
     self.touched = self.touched or self.mode != "pop"
     if self.col < COLS - 1:
       self.col += 1
@@ -87,9 +90,17 @@ class Decoder:
       if self.cur_chan != self.channel or self.mode is None:
         return
       self.prev_mid = self.mid_now = None
-      for b in (w >> 8, w & 0xFF):
+      b1, b2 = w >> 8, w & 0xFF
+      # input feature used only to *name* a failure bucket: in paint-on mode, a character pair ending in a blank that opens a run
+      # (first pair after a PAC, a mid-row code or another pair ending in a blank)
+      if b1 == 0x20:
+        self.run_open = True
+      self.cell_tag = "pair-ending-in-blank-opens-run" if self.mode == "paint" and b2 == 0x20 and self.run_open else None
+      for b in (b1, b2):
         if b >= 0x20:
           self._put(std_char(b))
+      self.cell_tag = None
+      self.run_open = b2 == 0x20
       return
     if self.last == w:
       self.last = None
@@ -107,34 +118,39 @@ class Decoder:
       return
     if cls == "pac":
       self._pac(info)
+      self.run_open = True
     elif cls == "midrow":
       if self.mode is None:
         return
+      self.run_open = True
       if info["italic"]:
         # 15.119(h)(1)(ii): colour can only be changed by a mid-row code of another colour; italics follows the colour assignment
         self.pen = (self.pen[0], True, info["underline"])
         if self.pen[0] != "white":
-          self.tags.add("italics-mid-row-code-after-colour")
+          self.pen_tag = "italics-mid-row-code-after-colour"     # (bucket naming only)
       else:
+        self.pen_tag = None
         self.pen = (info["color"], False, info["underline"])
       # back-to-back mid-row codes other than "colour, then italics" are not something an encoder sends: attributes not asserted
       run = self.prev_mid is not None
       pair = run and self.prev_mid[0] == "colour" and info["italic"] and self.prev_mid[1] == info["underline"] and not self.prev_mid[2]
-      self.sure = (not run) or (pair and self.sure)
+      self.sure = ((not run) or (pair and self.sure)) and not self.pac_unsure
       self.mid_now = ("italic" if info["italic"] else "colour", info["underline"], run)
       # the code itself occupies a cell displayed as a blank
-      self._mem()[self.row][self.col] = (" ", "white", False, False, False)
+      self._mem()[self.row][self.col] = (" ", "white", False, False, False, None)
       if self.col < COLS - 1:
         self.col += 1
     elif cls == "special":
       if self.mode is not None:
         self._put(info)
+        self.run_open = False
     elif cls == "extended":
       if self.mode is None:
         return
       if self.col > 0:
         self.col -= 1
       self._put(info)
+      self.run_open = False
     elif cls == "control":
       self._control(info)
 
@@ -157,7 +173,11 @@ class Decoder:
       self.row = r
     self.col = info["indent"]
     self.pen = (info["color"], info["italic"], info["underline"])
-    self.sure = True
+    self.pen_tag = None
+    # roll-up PACs for rows 5-11: ttconv documents that it ignores them (roll-up is anchored at row 15); the pen state of a reader
+    # that ignores a PAC is unknown until the next PAC it honours, so attributes are not asserted meanwhile
+    self.pac_unsure = self.mode == "roll" and 5 <= info["row"] <= 11
+    self.sure = not self.pac_unsure
 
   def _control(self, c):
     if c == "RCL":
@@ -194,11 +214,13 @@ class Decoder:
           self.disp[i] = self.disp[i + 1]
         self.disp[self.base] = [None] * COLS
         self.row, self.col = self.base, 0
-        self.sure = self.pen == DEFAULT_PEN
+        self.sure = self.pen == DEFAULT_PEN and not self.pac_unsure
     elif c == "BS":
       if self.mode is not None and self.col > 0:
         self.col -= 1
         self._mem()[self.row][self.col] = None
+        if all(x is None for x in self._mem()[self.row]):
+          self.run_open = True      # (bucket naming only) the row is empty again
     elif c == "DER":
       if self.mode is not None:
         for i in range(self.col, COLS):
@@ -210,7 +232,7 @@ class Decoder:
 
   # --- output
   def screen(self):
-    """displayed non-blank rows top to bottom: (row, first column, text, attrs) where text has leading/trailing blanks removed,
+    """displayed non-blank rows top to bottom: (row, first column, text, attrs, tags) where text has leading/trailing blanks removed,
     transparent interior cells read as blanks, and attrs[i] = (colour, italic, underline) or None (blank cell or not asserted)"""
     out = []
     for r in range(1, ROWS + 1):
@@ -222,7 +244,8 @@ class Decoder:
       txt = "".join(cells[i][0] if cells[i] else " " for i in range(first, last + 1))
       attrs = tuple((cells[i][1], cells[i][2], cells[i][3]) if cells[i] and cells[i][0] != " " and cells[i][4] else None
                     for i in range(first, last + 1))
-      out.append((r, first, txt, attrs))
+      tags = tuple(cells[i][5] if cells[i] else None for i in range(first, last + 1))
+      out.append((r, first, txt, attrs, tags))
     return tuple(out)
 
 
@@ -249,7 +272,7 @@ def selftest():
   assert d.screen() == ()
   d = run(load + dbl(C("EOC")))
   s = d.screen()
-  assert [(r, c, t) for r, c, t, _ in s] == [(14, 4, "HELLO"), (15, 0, "you")], s
+  assert [(r, c, t) for r, c, t, _, _ in s] == [(14, 4, "HELLO"), (15, 0, "you")], s
   assert s[1][3][0] == ("cyan", False, True) and s[0][3][0] == ("white", False, False)
   assert run(load + dbl(C("EOC")) + dbl(C("EDM"))).screen() == ()
   # an undoubled EOC acts once, a doubled one acts once too
@@ -258,16 +281,16 @@ def selftest():
   ru = []
   for i, t in enumerate(["one", "two", "three", "four"]):
     ru += dbl(C("RU2")) + dbl(C("CR")) + dbl(g.enc_pac(15, 0)) + txt(t)
-  assert [(r, t) for r, _, t, _ in run(ru).screen()] == [(14, "three"), (15, "four")]
+  assert [(r, t) for r, _, t, _, _ in run(ru).screen()] == [(14, "three"), (15, "four")]
   # paint-on accumulates, backspace and extended characters replace the preceding cell, mid-row code is a blank cell
   po = dbl(C("RDC")) + dbl(g.enc_pac(3, 8)) + txt("abX") + dbl(C("BS")) + txt("c") + txt("E") + dbl(g.enc_extended("É")) + \
        dbl(g.enc_mid("red")) + txt("r") + dbl(g.enc_mid(None, True)) + txt("i")
   s = run(po).screen()
-  assert [(r, c, t) for r, c, t, _ in s] == [(3, 8, "abcÉ r i")], s
+  assert [(r, c, t) for r, c, t, _, _ in s] == [(3, 8, "abcÉ r i")], s
   assert s[0][3][5] == ("red", False, False) and s[0][3][7] == ("red", True, True) and s[0][3][4] is None
   # channel 2 data and field-2 codes are not channel 1's
   assert run(dbl(C("RDC")) + dbl(g.enc_pac(1, 0)) + txt("A") + dbl(g.enc_pac(2, 0, chan=2)) + txt("zz") + dbl(g.enc_pac(2, 0)) + txt("B") +
-             dbl(C("EDM", field=2)) + txt("qq")).screen() == ((1, 0, "A", (("white", False, False),)), (2, 0, "B", (("white", False, False),)))
+             dbl(C("EDM", field=2)) + txt("qq")).screen() == ((1, 0, "A", (("white", False, False),), (None,)), (2, 0, "B", (("white", False, False),), (None,)))
   # tab offsets move without erasing
   s = run(dbl(C("RDC")) + dbl(g.enc_pac(1, 4)) + dbl(C("TO2")) + txt("A")).screen()
-  assert [(r, c, t) for r, c, t, _ in s] == [(1, 6, "A")]
+  assert [(r, c, t) for r, c, t, _, _ in s] == [(1, 6, "A")]
